@@ -382,3 +382,8 @@ for _k, _v in _OR.MUTANTS.items():
 MUTANTS.setdefault('C10', []).extend([
     ('ovl-stat64-ignores-every-errno', 'src/overlayfs/mod.rs', "if raw_error == libc::ENOENT || raw_error == libc::ENAMETOOLONG {", "if raw_error != libc::ENOENT || raw_error != libc::ENAMETOOLONG {"),
 ])
+
+# the D28 repair: the creating open must not be able to follow a link
+MUTANTS.setdefault('C06', []).extend([
+    ('pt-create-open-without-nofollow', 'src/passthrough/mod.rs', "let flags_excl = flags | libc::O_CREAT | libc::O_EXCL | libc::O_NOFOLLOW;", "let flags_excl = flags | libc::O_CREAT | libc::O_EXCL;"),
+])
